@@ -161,7 +161,7 @@ func BuildRequest(ps PodShape, rs ReqShape) *schedulingv1alpha2.BindRequest {
 	br := &schedulingv1alpha2.BindRequest{
 		ObjectMeta: metav1.ObjectMeta{Name: ps.Name, Namespace: ps.NS, UID: types.UID("uid-br-" + ps.Name),
 			Labels: map[string]string{"pod-name": ps.Name, "selected-node": rs.Node}},
-		Spec: schedulingv1alpha2.BindRequestSpec{PodName: ps.Name, SelectedNode: rs.Node, BackoffLimit: rs.Backoff},
+		Spec:   schedulingv1alpha2.BindRequestSpec{PodName: ps.Name, SelectedNode: rs.Node, BackoffLimit: rs.Backoff},
 		Status: schedulingv1alpha2.BindRequestStatus{Phase: rs.Phase, FailedAttempts: rs.Attempts},
 	}
 	if br.Status.Phase == "" {
@@ -401,4 +401,70 @@ func (sn *Snapshot) LiveCarriersExcept(g, except string) []string {
 		}
 	}
 	return out
+}
+
+// FractionContainer returns the container the GPU fraction is given to (docs/gpu-sharing: the first
+// container unless gpu-fraction-container-name names another regular or init container).
+func FractionContainer(pod *v1.Pod) *v1.Container {
+	name, ok := pod.Annotations[constants.GpuFractionContainerName]
+	if !ok {
+		if len(pod.Spec.Containers) == 0 {
+			return nil
+		}
+		return &pod.Spec.Containers[0]
+	}
+	for i := range pod.Spec.InitContainers {
+		if pod.Spec.InitContainers[i].Name == name {
+			return &pod.Spec.InitContainers[i]
+		}
+	}
+	for i := range pod.Spec.Containers {
+		if pod.Spec.Containers[i].Name == name {
+			return &pod.Spec.Containers[i]
+		}
+	}
+	return nil
+}
+
+// EffectiveEnv is a kubelet model: the environment the container would get from its envFrom / env
+// ConfigMap references, given the ConfigMaps of the snapshot. missing lists non-optional references
+// that cannot be resolved (the container would not start).
+func EffectiveEnv(pod *v1.Pod, ctr *v1.Container, sn *Snapshot) (env map[string]string, missing []string) {
+	env = map[string]string{}
+	for _, ef := range ctr.EnvFrom {
+		if ef.ConfigMapRef == nil {
+			continue
+		}
+		d, ok := sn.ConfigMaps[pod.Namespace+"/"+ef.ConfigMapRef.Name]
+		if !ok {
+			if ef.ConfigMapRef.Optional == nil || !*ef.ConfigMapRef.Optional {
+				missing = append(missing, ef.ConfigMapRef.Name)
+			}
+			continue
+		}
+		for k, v := range d {
+			env[k] = v
+		}
+	}
+	for _, e := range ctr.Env {
+		if e.ValueFrom == nil {
+			env[e.Name] = e.Value
+			continue
+		}
+		if r := e.ValueFrom.ConfigMapKeyRef; r != nil {
+			d, ok := sn.ConfigMaps[pod.Namespace+"/"+r.Name]
+			if !ok {
+				if r.Optional == nil || !*r.Optional {
+					missing = append(missing, r.Name)
+				}
+				continue
+			}
+			if v, ok := d[r.Key]; ok {
+				env[e.Name] = v
+			} else if (r.Optional == nil || !*r.Optional) && (e.Name == constants.NvidiaVisibleDevices || e.Name == "GPU_PORTION") {
+				missing = append(missing, r.Name+"["+r.Key+"]")
+			}
+		}
+	}
+	return env, missing
 }
